@@ -9,6 +9,7 @@ ID = 'C01'
 GEN = ['kernels', 'classes']
 PROPS = 'Props/C01.v'
 MODEL_VO = ['Model/Dev.v']
+EXTRA_MODEL_VO = ['Proofs/TransEval.v']
 CASE_TYPE = 'leafdev Q * list Q * list Q * Q * list Q'
 CHECKER = 'chk'
 COQ_PRELUDE = '''From Coq Require Import ZArith QArith List Bool.
@@ -26,9 +27,11 @@ RULE = ('cases = (atomic device config incl. ADevice x preference-function AST o
         'coefficients, heating/cooling, cbounds none/pair/single/multi/overlap), n in 1..7. Non-trivial: the class has a preference '
         'term (not Device/PVDevice/null function) ; distinct by hash of (config, flow, price).')
 EXPLANATION = ('Props/C01.v proves, for every n, that the model marginal cost of each class is the coordinate-wise derivative of the model '
-               'cost (Coquelicot is_derive), kernels regenerated from functions.py; the correspondence ties model cost/deriv to the code. '
-               'Not covered by a theorem (correspondence + oracle only): ADevice x function AST composition, multi-range CDevice2, '
-               'non-integer exponents; InformationEntropy/TemporalVariance/CobbDouglas differentiate numerically and are not modelled.')
+               'cost (Coquelicot is_derive) and its total derivative (every direction, hence the line-integral form), kernels regenerated '
+               'from functions.py; the correspondence ties model cost/deriv to the code. InformationEntropy, TemporalVariance and '
+               'CobbDouglas (numerically differentiated in the source) are modelled over the reals (Model/Trans.v): their closed-form '
+               'gradients are proved to be the total derivatives, and the implementation is compared with them by interval arithmetic '
+               'inside Coq (second correspondence). Non-integer exponents of IDevice: theorem over the reals, no executable instance.')
 CLASSES = lg.CLASSES
 
 
@@ -140,6 +143,56 @@ def oracle(c, h=2.0 ** -12):
     if abs(num - g[k]) > tol:
       return 'slot %d: reported marginal cost %.9g but central difference of cost is %.9g (h=2^-12, tol %.2g)' % (k, g[k], num, tol)
   return None
+
+
+# ---- the three numerically differentiated preference functions: reals-only model, interval-arithmetic correspondence -------------
+def extra_correspondence(rng, tier):
+  import transeval as te
+  n = {'quick': 45, 'thorough': 600}.get(tier, 45)
+  name = 'correspondence:C01:transcendental-functions'
+  cases, props, owner = [], [], []
+  dist = {}
+  for i in range(n):
+    c = te.gen_leaf(rng, i)
+    L = c['leaf']
+    d = lg.build(L)
+    s, p = np.array(fl(c['s'])), np.array(fl(c['p']))
+    cost = float(d.cost(s.copy(), p.copy()))
+    dv = np.array(d.deriv(s.copy(), p.copy()), dtype=float).reshape(-1)
+    if not (np.isfinite(cost) and np.all(np.isfinite(dv)) and dv.shape == (L['n'],)):
+      cases.append(c)
+      props.append('(0 = 1)')      # non-finite value at a differentiable point: reported as a disagreement
+      owner.append(len(cases) - 1)
+      continue
+    Fm, Gm = te.model_terms(L['f'], c['s'])
+    cases.append(c)
+    k = len(cases) - 1
+    props.append(te.close_prop('adev_cost %s %s %s' % (Fm, te.rlist(c['s']), te.rlist(c['p'])), fr(cost), F(1, 10**9)))
+    owner.append(k)
+    if c['zero_at'] is None:
+      for j in range(L['n']):     # numdifftools: tolerance 1e-6 relative
+        props.append(te.close_prop('nth %d (adev_deriv %s %s) 0' % (j, Gm, te.rlist(c['p'])), fr(dv[j]), F(1, 10**6)))
+        owner.append(k)
+    for key in ('fn:' + c['trans'], 'n:%d' % L['n'], 'zero-entry' if c['zero_at'] is not None else 'no-zero-entry',
+                'price:zero' if not any(c['p']) else 'price:vector'):
+      dist[key] = dist.get(key, 0) + 1
+  idx, err, secs = te.run_checks(ID, props)
+  broken, failing = [], []
+  if err:
+    broken.append({'kind': 'correspondence-run', 'name': name, 'detail': err})
+  bad_cases = sorted({owner[i] for i in idx})
+  if bad_cases:
+    failing = [cases[k] for k in bad_cases]
+    broken.append({'kind': 'correspondence', 'name': name,
+                   'detail': '%d of %d cases disagree with the model of Model/Trans.v (interval evaluation); first: %s' % (
+                       len(bad_cases), len(cases), __import__('json').dumps(case_to_json(cases[bad_cases[0]]))[:500])})
+  notes = {'transcendental': {'cases': len(cases), 'propositions': len(props), 'disagreeing': len(bad_cases), 'seconds': round(secs, 1),
+                              'distribution': dist,
+                              'rule': 'ADevice over InformationEntropy / TemporalVariance / CobbDouglas, n in 1..6, dyadic flows of magnitude '
+                                      '1/4..4 (entropy: mixed signs, exact zero entries for the cost only), price zero or vector; cost within '
+                                      '1e-9 and every entry of the numerical marginal cost within 1e-6 (relative+absolute) of the model, each '
+                                      'proved in Coq by interval arithmetic'}}
+  return [name], broken, failing, notes
 
 
 def search(rng, budget, seeds, findings):
